@@ -292,7 +292,7 @@ def run(prop, args):
 
     exe, px = vf.build_driver("drv_bounds", "plain")
     chk.extra["build"] = px["hash"]
-    reqs = gen(rng, 700 if quick else 40000)
+    reqs = gen(rng, 700 if quick else 100000)
     cov = cover_boundary(rng)
     reqs += cov if not quick else rng.sample(cov, 900)
     chk.extra["cover_boundary_requests"] = len(cov)
